@@ -12,7 +12,8 @@ THEOREMS = ['T4Spec.error_eq_value_times_sigma', 'T4Spec.energy_bins_increasing'
             'T4Spec.orient_edges', 'T4Spec.orient_cells', 'T4Spec.decreasing_iff', 'T4Spec.convert_energy_axis', 'T4Spec.convert_single', 'T4Spec.fillRows_single',
             'T4Spec.all_axes_score_attached', 'T4Spec.axis_bins_increasing', 'T4Spec.time_edges_collected',
             'T4Spec.score_at_cursor', 'T4Spec.fill_cells', 'T4Spec.convert_ok',
-            'T4Spec.grid_scores_attached', 'T4Spec.grid_fill_returns', 'T4Spec.grid_convert_returns', 'T4Spec.grid_read', 'T4Spec.muKeys_grid', 'T4Spec.phiKeys_grid', 'T4Spec.fillRows_succeeds', 'T4Spec.cursors_blocks', 'T4Spec.cursors_blocks_nodup', 'T4Spec.nbBins_blocks']
+            'T4Spec.grid_scores_attached', 'T4Spec.grid_fill_returns', 'T4Spec.grid_convert_returns', 'T4Spec.grid_read', 'T4Spec.muKeys_grid', 'T4Spec.phiKeys_grid', 'T4Spec.fillRows_succeeds', 'T4Spec.cursors_blocks', 'T4Spec.cursors_blocks_nodup', 'T4Spec.nbBins_blocks',
+            'Ap3.picker_eq_reader', 'Ap3.reader_returns_stored', 'Ap3.picker_returns_stored', 'Ap3.build_spec', 'Ap3.concentration_agree']
 BUDGET = {'quick': 700, 'thorough': 12000}
 TIME_LIMIT = {'quick': 58, 'thorough': 1200}
 RULE = ('five streams. (unit, 70%) token lists as the grammar hands them to the builders: 1-6 energy groups, optional time steps / '
@@ -35,7 +36,7 @@ TRUSTED = ['harness/props/c10.py (token generator, number re-rendering of listin
 ASSUMPTIONS = ['the error is defined as value x sigma% (a negative score has a negative error)',
                'theorems are stated for the energy axis of one block (convert_energy_axis ties them to the executable model) and for the generic '
                'orientation step; the composition over the t / mu / phi axes is covered by the bit-exact correspondence',
-               'Apollo3: no Lean model; Reader and Picker are compared with each other and with a metamorphic ground truth']
+               'Apollo3: the bins / shape / cell-order logic of Reader and Picker is modelled (Model/Ap3.lean) and compared with both classes on every array of the synthetic files; h5py and the walk over the file are exercised against ground truth, not modelled']
 
 INTEG = re.compile(r'^(number of batches used: \d+\t)([-+0-9.eE]+)\t([-+0-9.eE]+)\s*$')
 ROW = re.compile(r'^(\s*)([-+0-9.eE]+) - ([-+0-9.eE]+)(\s+)([-+0-9.eE]+)(\s+)([-+0-9.eE]+)(\s+)([-+0-9.eE]+)(\s*)$')
@@ -161,7 +162,7 @@ def gen(rng, tier, run):
             else:
                 acc.append(['index', rng.choice(list(range(len(numbers))) + [-1])])
         return {'mode': 'editions', 'file': name, 'accesses': acc}
-    if r < 0.96:
+    if r < 0.97:
         return {'mode': 'a3synth', 'seed': rng.randrange(1 << 30)}
     return {'mode': 'apollo3', 'file': rng.choice(hdf_files()), 'seed': rng.randrange(1 << 30)}
 
@@ -499,7 +500,10 @@ def build_a3(path, rng):
     import numpy as np
     truth = {}
     local = {}
+    descr = {}
     build_a3.local = local
+    build_a3.descr = descr
+    hfile_ng = {}
     with h5py.File(path, 'w') as hfile:
         nout = rng.choice([1, 2])
         info = hfile.create_group('info')
@@ -518,6 +522,7 @@ def build_a3(path, rng):
             oinfo = info.create_group(oname)
             oinfo['GEOMID'] = np.array([b'geometry_0'], dtype='S10')
             oinfo['NG'] = np.array([ngr], dtype='i4')
+            hfile_ng[oname] = ngr
             out = hfile.create_group(oname)
             tot = out.create_group('totaloutput')
             tot['KEFF'] = np.array([rng.uniform(0.8, 1.2)], dtype='f8')
@@ -526,6 +531,20 @@ def build_a3(path, rng):
                 arr = np.array([rng.uniform(1, 9) for _ in range(ngr)], dtype='f8')
                 tot['FLUX'] = arr
                 truth[(oname, 'totaloutput', None, 'FLUX')] = arr
+            if rng.random() < 0.25:
+                # surface quantities of the whole output: (groups, surfaces) and (groups, surfaces, 2 directions)
+                nsurf = rng.choice([2, 3, 4])      # (a single surface makes size == groups: both classes then refuse the 2-d array)
+                tot['NSURF'] = np.array([nsurf], dtype='i4')
+                arr = np.array([[rng.uniform(1, 9) for _ in range(nsurf)] for _ in range(ngr)], dtype='f8')
+                tot['SURFFLUX'] = arr
+                truth[(oname, 'totaloutput', None, 'SURFFLUX')] = arr
+                if rng.random() < 0.5:
+                    arr = np.array([[[rng.uniform(1, 9), rng.uniform(1, 9)] for _ in range(nsurf)] for _ in range(ngr)], dtype='f8')
+                    tot['CURRENT'] = arr
+                    truth[(oname, 'totaloutput', None, 'CURRENT')] = arr
+                for nm in ('SURFFLUX', 'CURRENT'):
+                    if (oname, 'totaloutput', None, nm) in truth:
+                        descr[(oname, 'totaloutput', None, nm)] = {'nsurf': nsurf}
             if rng.random() < 0.5:
                 # user ("local") values of the output: names padded with blanks, the same name may be stored more than once
                 lnames = rng.sample(['keff_user', 'power', 'Bu', 'leak'], rng.randrange(1, 4))
@@ -555,7 +574,56 @@ def build_a3(path, rng):
                         arr = np.array([rng.uniform(0, 2) for _ in range(ngr)], dtype='f8')
                         igrp[reac] = arr
                         truth[(oname, zone, iso, reac)] = arr
+                    if rng.random() < 0.35:
+                        # rates with several anisotropies: the number is given for the isotope (info/nbAnisotropy) or, under
+                        # `macro`, per rate (info/<rate>/nbAnisotropy)
+                        nani = rng.choice([1, 2, 3])
+                        info_g = igrp.create_group('info')
+                        per_rate = iso == 'macro' and rng.random() < 0.5
+                        if per_rate:
+                            info_g.create_group('Diffusion')['nbAnisotropy'] = np.array([nani], dtype='i4')
+                        else:
+                            info_g['nbAnisotropy'] = np.array([nani], dtype='i4')
+                        arr = np.array([rng.uniform(0, 2) for _ in range(ngr * nani)], dtype='f8')
+                        igrp['Diffusion'] = arr
+                        truth[(oname, zone, iso, 'Diffusion')] = arr
+                        for reac in [k[3] for k in truth if k[:3] == (oname, zone, iso)]:
+                            descr[(oname, zone, iso, reac)] = {
+                                'info': True, 'res_aniso': nani if per_rate and reac == 'Diffusion' else None,
+                                'def_aniso': None if per_rate else nani}
+    for key, arr in truth.items():
+        dsc = descr.setdefault(key, {})
+        dsc.update({'name': key[3], 'level': 'total' if key[1] == 'totaloutput' else ('zone' if key[2] is None else 'iso'),
+                    'shape': list(np.shape(arr)) or [1], 'ngroups': int(hfile_ng[key[0]])})
+        for opt in ('res_aniso', 'def_aniso', 'nsurf'):
+            dsc.setdefault(opt, None)
+        dsc.setdefault('info', False)
     return truth
+
+
+def a3_expected(stored, dsc):
+    """ground truth: shape and bins a stored array must be given (documented layout)"""
+    import numpy as np
+    if np.ndim(stored) == 0:
+        return [], []
+    ngr, size = dsc['ngroups'], int(np.size(stored))
+    if size == ngr and np.ndim(stored) == 1:
+        return [ngr], [['groups', ngr]]
+    if dsc['name'] == 'SURFFLUX':
+        return list(np.shape(stored)), [['groups', ngr], ['surfaces', dsc['nsurf']]]
+    if dsc['name'] == 'CURRENT':
+        return list(np.shape(stored)), [['groups', ngr], ['surfaces', dsc['nsurf']], ['direction', 2]]
+    nani = size // ngr
+    return [nani, ngr], [['anisotropies', nani], ['groups', ngr]]
+
+
+def a3_observe(dset, stored):
+    """what a class made of a stored array: shape, bins (name, length), and where each returned cell stood in the stored array"""
+    import numpy as np
+    flat = [float(x) for x in np.asarray(stored, dtype=float).ravel()]
+    cells = [float(x) for x in np.asarray(dset.value, dtype=float).ravel()]
+    return {'shape': list(np.shape(dset.value)), 'bins': [[k, len(v)] for k, v in dset.bins.items()],
+            'value': [flat.index(c) if c in flat else -1 for c in cells]}
 
 
 def run_a3synth(case):
@@ -571,12 +639,19 @@ def run_a3synth(case):
             path = os.path.join(tmp, 'synthetic.hdf')
             truth = build_a3(path, random.Random(case['seed']))
 
-            def same(dset, stored):
+            descr = build_a3.descr
+            out['obs'] = {}
+
+            def same(dset, stored, key=None, who=None):
+                if key is not None and np.ndim(stored) != 0:
+                    out['obs'].setdefault('|'.join(map(str, key)), {})[who] = a3_observe(dset, stored)
                 if np.ndim(stored) == 0:
                     return np.shape(dset.value) == () and float(dset.value) == float(stored) and not dset.bins
-                return (np.shape(dset.value) == np.shape(stored) and np.array_equal(np.asarray(dset.value), stored)
-                        and list(dset.bins) == ['groups']
-                        and np.array_equal(np.asarray(dset.bins['groups']), np.arange(len(stored))))
+                shape, bins = a3_expected(stored, descr[key])
+                return (list(np.shape(dset.value)) == shape
+                        and np.array_equal(np.asarray(dset.value).ravel(), np.asarray(stored).ravel())
+                        and [[k, len(v)] for k, v in dset.bins.items()] == bins
+                        and all(np.array_equal(np.asarray(v), np.arange(len(v))) for k, v in dset.bins.items() if k != 'direction'))
             seen = set()
             local = build_a3.local
             got_local = {}
@@ -592,7 +667,7 @@ def run_a3synth(case):
                     continue
                 seen.add(match[0])
                 out['n'] += 1
-                if not same(item['results'], truth[match[0]]):
+                if not same(item['results'], truth[match[0]], match[0], 'reader'):
                     out['reader_bad'].append(f"{key}: Reader gives shape {np.shape(item['results'].value)} bins "
                                              f"{list(item['results'].bins)} for the stored array of shape {np.shape(truth[match[0]])}")
             for key in truth:
@@ -608,7 +683,7 @@ def run_a3synth(case):
                 if iso is not None:
                     kwargs['isotope'] = iso
                 picked = picker.pick_standard_value(**kwargs)
-                if not same(picked, stored):
+                if not same(picked, stored, (oname, zone, iso, name), 'picker'):
                     out['picker_bad'].append(f'{(oname, zone, iso, name)}: Picker gives shape {np.shape(picked.value)} bins '
                                              f'{list(picked.bins)} for the stored array of shape {np.shape(stored)}')
             picker.close()
@@ -635,6 +710,20 @@ def run_impl(case, run):
 
 
 def run_model(case, driver, run):
+    if case['mode'] == 'a3synth':
+        # the model is asked about every stored array of the synthetic file (the file is rebuilt from the seed: same content)
+        import random
+        import numpy as np
+        with tempfile.TemporaryDirectory() as tmp:
+            truth = build_a3(os.path.join(tmp, 'synthetic.hdf'), random.Random(case['seed']))
+            descr = dict(build_a3.descr)
+        obs = {}
+        for key, stored in truth.items():
+            if np.ndim(stored) == 0:
+                continue
+            ans = driver.ask('ap3', descr[key])
+            obs['|'.join(map(str, key))] = {'reader': ans['reader'], 'picker': ans['picker']}
+        return {'a3': obs}
     if case['mode'] != 'unit':
         return {'skipped': True}
     blocks = []
@@ -647,6 +736,10 @@ def compare(case, impl, model):
     from vcheck.runner import first_diff
     if model.get('skipped'):
         return None
+    if 'a3' in model:
+        if impl.get('outcome') != 'ok':
+            return None          # the oracle reports it
+        return first_diff(impl.get('obs'), model['a3'])
     if 'err' in impl or 'err' in model:
         return None if impl.get('err') == model.get('err') else f"impl={impl.get('err', 'result')} model={model.get('err', 'result')}"
     keys = ('shape', 'e', 't', 'mu', 'phi', 'score', 'sigma', 'leth', 'error', 'integ')
